@@ -103,6 +103,18 @@ class Gen:
             return "%s + %d" % (self.use(), r.randint(0, 3))
         if c < 0.9:
             return str(r.randint(0, 3))
+        if c >= 0.95:
+            # an unparenthesised body: it extends as far to the right as the expression goes (quantifiers and sum bind weakest), so every
+            # operand after the binder -- including those right of a comparison or a logical operator -- is in the binder's scope
+            b = self.binder()
+            kw = r.choice(["forall", "exists", "sum"])
+            ks = self.enter([b])
+            if kw == "sum":
+                body = "%s + %s == %s" % (self.use(), self.use(), self.use())
+            else:
+                body = "%s + %s >= 0 && %s > %s" % (self.use(), self.use(), self.use(), self.use())
+            self.leave()
+            return "%s (%s : int[0,%d]) %s" % (kw, b, ks[0], body)
         b = self.binder()
         # quantifier binder: a scope with one declaration
         ks = None
@@ -148,7 +160,13 @@ class Gen:
             return "{ %s }" % body
         x = self.binder()
         ks = self.enter([x])
-        if r.random() < 0.5:
+        if r.random() < 0.3:
+            # an iteration as the brace-less body of an iteration: the inner body sees both iterators
+            y = self.binder()
+            ks2 = self.enter([y])
+            body = "for (%s : int[0,%d]) gz = %s;" % (y, ks2[0], self.expr())
+            self.leave()
+        elif r.random() < 0.5:
             body = "gz = %s;" % self.expr()
         else:
             self.enter([])
@@ -521,6 +539,23 @@ def run(ctx):
     models.append(({"globals": [], "templates": [], "system": [], "processes": [], "chains": [], "xml": "\n".join(cx)}, Gen(r)))
     qmeta["q%d" % (len(models) - 1)] = (cqs, cexp)
     qcases.append(("q%d" % (len(models) - 1), "\n".join(cx), "\n".join(cqs)))
+    # quantifiers over the instances of dynamic templates: `p.y` is looked up in the template of the INNERMOST binder named p
+    dyn_xml = ('<?xml version="1.0" encoding="utf-8"?><nta><declaration>dynamic A(int k); dynamic B(int k); int y;</declaration>'
+               '<template><name>A</name><parameter>int k</parameter><declaration>bool y; int v;</declaration><location id="id0"><name>S</name></location><init ref="id0"/></template>'
+               '<template><name>B</name><parameter>int k</parameter><declaration>clock y; int w;</declaration><location id="id1"><name>S</name></location><init ref="id1"/></template>'
+               '<template><name>M</name><location id="id2"><name>S</name></location><init ref="id2"/>'
+               '<transition><source ref="id2"/><target ref="id2"/><label kind="assignment">spawn A(1), spawn B(2)</label></transition></template>'
+               '<system>system M;</system></nta>')
+    dyn_q = [("E<> exists (p : A) (exists (p : B) (p.y > 0))", ["(CLOCK)"]),
+             ("E<> exists (p : A) (exists (q : B) (q.y > 0 && p.y))", ["(CLOCK)", "(BOOL)"]),
+             ("E<> (exists (p : A) (p.y)) && (exists (p : B) (p.y > 1))", ["(BOOL)", "(CLOCK)"]),
+             ("E<> exists (p : B) (exists (p : A) (p.y))", ["(BOOL)"]),
+             ("E<> forall (p : A) (p.y || exists (p : B) (p.y > 2))", ["(BOOL)", "(CLOCK)"]),
+             ("E<> exists (p : B) ((forall (p : A) (p.y)) && p.y > 3)", ["(BOOL)", "(CLOCK)"]),
+             ("E<> y > 1 && exists (p : A) (p.y)", ["(RANGE_(INT)_(CONSTANT_int_-32768)_(CONSTANT_int_32767))", "(BOOL)"])]
+    models.append(({"globals": [], "templates": [], "system": [], "processes": [], "chains": [], "xml": dyn_xml}, Gen(r)))
+    qmeta["q%d" % (len(models) - 1)] = ([q for q, _ in dyn_q], [("IDTYPES", "y", t) for _, t in dyn_q])
+    qcases.append(("q%d" % (len(models) - 1), dyn_xml, "\n".join(q for q, _ in dyn_q)))
     qtext = "".join("%s %s %s\n" % (cid, base64.b64encode(x.encode()).decode(), base64.b64encode(q.encode()).decode()) for cid, x, q in qcases)
     rc, out, err, _ = core.run_exe(exe07, ["batch"], stdin_text=qtext, timeout=900, env=C08.ABORT_ENV)
     if rc != 0:
@@ -554,6 +589,11 @@ def run(ctx):
                     km = KRE.search(ids[0]) if ids else None
                     if not km or int(km.group(1)) != e[2]:
                         qdis.append((cid, q, "expected global int[0,%d], got %s" % (e[2], toks)))
+            elif e[0] == "IDTYPES":
+                got = [t.split(":", 2)[2] for t in toks if t.startswith("ID:%s:" % e[1])]
+                nq_clean += 1
+                if got != e[2]:
+                    qdis.append((cid, q, "the occurrences of %r have the types %s, the innermost binders give %s" % (e[1], got, e[2])))
             elif not clean:
                 continue      # process types are only meaningful for accepted models
             elif e[0] == "DOT":
